@@ -22,6 +22,7 @@ K_ROOT = "C18:to_root-changes-tree-or-root"
 K_VIEW = "C18:segment-view-not-one-segment-per-non-root-vertex"
 K_RT = "C18:arrays-differ-after-reload"
 K_ACC = "C18:accessors-disagree-with-connectivity-array"
+K_FRAME = "C18:operation-on-one-morphology-changes-another-or-the-callers-arrays"
 
 
 # ---------------------------------------------------------------------------------- Coq terms
@@ -158,7 +159,7 @@ def gen_to_root(ck):
     for n in range(1, nmax + 1):
         for conn in all_trees_rooted_at_0(n):
             for i in range(n):
-                cases.append({"conn": conn, "index": i, "kind": "exhaustive", "valid": True})
+                cases.append({"conn": conn, "index": i, "kind": "exhaustive", "valid": True, "nd": (i + n) % 2 == 0})
     ck.extra["exhaustive_trees_up_to_n"] = nmax
     # random shapes and sizes, every / several new roots, repeated re-rooting
     for _ in range(ck.n(140, 1500)):
@@ -170,7 +171,7 @@ def gen_to_root(ck):
             deepest = max(range(n), key=lambda v: depth_of(conn, v))
             idxs = [deepest, 0] + [ck.rng.randrange(n) for _ in range(2)]
         for i in idxs:
-            c = {"conn": conn, "index": i, "kind": "random:" + shape, "valid": True}
+            c = {"conn": conn, "index": i, "kind": "random:" + shape, "valid": True, "nd": ck.rng.random() < 0.5}
             if ck.rng.random() < 0.35:
                 c["then"] = [ck.rng.randrange(n) for _ in range(ck.rng.randrange(1, 4))]
             cases.append(c)
@@ -218,7 +219,8 @@ def gen_views(ck):
     for _ in range(ck.n(120, 1200)):
         n = ck.rng.randrange(1, 301) if ck.rng.random() < 0.3 else ck.rng.randrange(1, 40)
         conn, shape = random_tree(ck.rng, n)
-        c = {"verts": rand_verts(ck.rng, n), "conn": conn, "mask": None, "kind": "plain:" + shape, "plain": True}
+        c = {"verts": rand_verts(ck.rng, n), "conn": conn, "mask": None, "kind": "plain:" + shape, "plain": True,
+             "nd": ck.rng.random() < 0.5}
         u = ck.rng.random()
         if u < 0.25:
             # floating vertices: a mask with a few True entries (model mirrors the index mapping; no property claim)
@@ -255,7 +257,7 @@ def _reroot(conn, i):
 def gen_morph(ck, nmax=8, named=True):
     n = ck.rng.choice([0, 1, 2]) if ck.rng.random() < 0.2 else ck.rng.randrange(1, nmax + 1)
     conn, _ = random_tree(ck.rng, n)
-    m = {"verts": rand_verts(ck.rng, n), "conn": conn, "mask": None, "id": None}
+    m = {"verts": rand_verts(ck.rng, n), "conn": conn, "mask": None, "id": None, "nd": ck.rng.random() < 0.5}
     if ck.rng.random() < 0.4 and n > 0:
         m["mask"] = [ck.rng.random() < 0.3 for _ in range(n)]
     if named and ck.rng.random() < 0.75:
@@ -327,6 +329,79 @@ def gen_morphs(ck):
         m["kind"] = "single"
         out.append(m)
     return out
+
+
+def gen_frames(ck):
+    """two morphologies A, B built from the same caller arrays (lists or numpy ndarrays; or B from A's own arrays) and an
+    interleaved list of operations; the model treats A and B as independent values (C18_frame)"""
+    cases = [
+        # stored: the idiom of the library's tests, work = ArrayMorphology(m.vertices, m.connectivity); work.to_root(3)
+        {"verts": [[0, 0, 0, 2], [1, 1, 0, 1], [2, 1, 3, 5], [3, 2, 3, 4], [1, -1, 2, 25]], "conn": [-1, 0, 1, 2, 0],
+         "src": "ndarray", "share": "from_morph", "ops": [["B", "to_root", 3]], "kind": "frame:stored"},
+        {"verts": [[0, 0, 0, 2], [1, 1, 0, 1], [2, 1, 3, 5]], "conn": [-1, 0, 1],
+         "src": "ndarray", "share": "inputs", "ops": [["A", "to_root", 2]], "kind": "frame:stored"},
+    ]
+    for _ in range(ck.n(110, 900)):
+        n = ck.rng.randrange(2, 9) if ck.rng.random() < 0.6 else ck.rng.randrange(9, 80)
+        conn, shape = random_tree(ck.rng, n)
+        src = "ndarray" if ck.rng.random() < 0.7 else "list"
+        share = ck.rng.choice(["inputs", "from_morph"])
+        one_sided = ck.rng.random() < 0.5      # one morphology is never re-rooted: its views must be those of its inputs
+        ops = []
+        for _k in range(ck.rng.randrange(1, 6)):
+            who = "A" if one_sided else ck.rng.choice("AB")
+            u = ck.rng.random()
+            if u < 0.7:
+                ops.append([who, "to_root", ck.rng.randrange(n)])
+            elif u < 0.85:
+                ops.append([ck.rng.choice("AB"), "convert", None])
+            else:
+                ops.append([ck.rng.choice("AB"), "write_load", None])
+        if one_sided and ck.rng.random() < 0.5:
+            ops = [["B" if o[0] == "A" and o[1] == "to_root" else o[0], o[1], o[2]] for o in ops]
+        cases.append({"verts": rand_verts(ck.rng, n), "conn": conn, "src": src, "share": share, "ops": ops,
+                      "kind": "frame:%s:%s" % (src, share)})
+    return cases
+
+
+def check_frame(ck, c, o):
+    """operations on one morphology leave the other one and the caller's arrays as they were; a morphology that was
+    never re-rooted still presents the arrays it was given through its segment view and its conversion"""
+    inp = {"vertices": c["verts"], "connectivity": c["conn"], "built_from": c["src"], "second_morphology": c["share"],
+           "operations": c["ops"]}
+    if o.get("r") != "ok":
+        ck.witness(K_FRAME, "operations on two morphologies sharing their inputs raised %s" % o.get("r"), input=inp,
+                   expected="no exception", observed=o.get("r"), broken="C18_frame")
+        return False
+    n = len(c["conn"])
+    ok = True
+    if o["frame"] or not o["caller_unchanged"]:
+        ck.witness(K_FRAME, "an operation on one morphology changed another morphology built from the same arrays, or the "
+                            "caller's arrays", input=inp, expected="only the re-rooted morphology's own connectivity changes",
+                   observed={"first_changes": o["frame"][:3], "caller_arrays_unchanged": o["caller_unchanged"]},
+                   broken="C18_frame")
+        ok = False
+    for w in "AB":
+        idx = [x[2] for x in c["ops"] if x[0] == w and x[1] == "to_root"]
+        conn = o["conn" + w]
+        root = idx[-1] if idx else 0
+        good = uedges(conn) == uedges(c["conn"]) and [v for v in range(n) if conn[v] == -1] == [root] and is_tree(conn)
+        untouched = not idx
+        if untouched:
+            exp = expected_segments(c)
+            good = good and conn == c["conn"] and [s[:3] if s else None for s in o["view" + w]] == [s[:3] for s in exp] \
+                and o["conv" + w] != "IndexError" and [s[:3] for s in o["conv" + w]] == [s[:3] for s in exp]
+        fl = o["file" + w]
+        good = good and fl.get("r") == "ok" and fl.get("np_equal") and o["loaded%s_conn" % w] == conn
+        if not good and ok:
+            ck.witness(K_FRAME, "morphology %s does not present the arrays it was given / the tree it was re-rooted to "
+                                "after operations on the other morphology" % w, input=inp,
+                       expected={"connectivity": c["conn"] if untouched else "same undirected tree, root %d" % root,
+                                 "segments": expected_segments(c) if untouched else None},
+                       observed={"connectivity": conn, "segment_view": o["view" + w], "conversion": o["conv" + w], "file": fl},
+                       broken="C18_frame")
+            ok = False
+    return ok
 
 
 # ---------------------------------------------------------------------------------- the property on the implementation
@@ -436,6 +511,8 @@ def run(ck):
         "the names (sorted); exercised on every file case",
         "numpy indexing: negative indices wrap, out-of-range raises IndexError (pyget/pyset)",
         "impl/c18_impl.py and the term printer in checks/c18.py (integers, booleans, ASCII names)",
+        "frame: the model is functional (values cannot alias); the driver therefore builds two morphologies from the same "
+        "numpy arrays / lists and compares both and the caller's arrays after every operation (C18_frame)",
     ]
     ck.assumptions = [
         "vertex coordinates are any values of one type V (the theorems are parametric in V; the cases use integer rows, "
@@ -449,10 +526,12 @@ def run(ck):
 
     tr, vw, dc, ms = gen_to_root(ck), gen_views(ck), gen_docs(ck), gen_morphs(ck)
     strip = lambda c: {k: v for k, v in c.items() if k not in ("kind", "valid", "plain")}  # noqa: E731
+    fr = gen_frames(ck)
     out = ck.impl("c18_impl.py", {"to_root": [strip(c) for c in tr], "views": [strip(c) for c in vw],
-                                  "docs": [strip(c) for c in dc], "morphs": [strip(c) for c in ms]}, timeout=900)
+                                  "docs": [strip(c) for c in dc], "morphs": [strip(c) for c in ms],
+                                  "frames": [strip(c) for c in fr]}, timeout=900)
 
-    dis = {"to_root": 0, "view": 0, "convert": 0, "document": 0, "morphology": 0}
+    dis = {"to_root": 0, "view": 0, "convert": 0, "document": 0, "morphology": 0, "frame": 0}
     orig = {"convert": 0, "document": 0}
 
     # ---- to_root: model vs implementation
@@ -527,6 +606,32 @@ def run(ck):
                      "Definition cases : list (amorph vtx * rt vtx) :=\n [%s].\n" % ";\n  ".join(x[2] for x in part),
                      ["mismatches morph_case_ok cases"]))
 
+    # ---- frame cases: two morphologies sharing their inputs
+    rows = []
+    for c, o in zip(fr, out["frames"]):
+        ck.tally(c["kind"])
+        ops = "[%s]" % "; ".join("(%s, %s)" % ("MA" if x[0] == "A" else "MB", z(x[2])) for x in c["ops"] if x[1] == "to_root")
+        if o["r"] == "ok":
+            sv = lambda l: "[%s]" % "; ".join("None" if s is None else "(Some %s)" % seg_term(s) for s in l)  # noqa: E731
+            cv = lambda l: "None" if l == "IndexError" else "(Some [%s])" % "; ".join(seg_term(s) for s in l)  # noqa: E731
+            t = "(%s, %s, %s, Ok (%s, %s), %s, (%s, %s), (%s, %s))" % (
+                vts(c["verts"]), zs(c["conn"]), ops, zs(o["connA"]), zs(o["connB"]), zs(o["caller_conn"]),
+                sv(o["viewA"]), sv(o["viewB"]), cv(o["convA"]), cv(o["convB"]))
+        elif o["r"] in ("IndexError", "Timeout"):
+            t = "(%s, %s, %s, %s, %s, ([], []), (None, None))" % (
+                vts(c["verts"]), zs(c["conn"]), ops, "IndexErr" if o["r"] == "IndexError" else "OutOfFuel", zs(c["conn"]))
+        else:
+            ck.disagree("run_two", strip(c), "Ok/IndexErr/OutOfFuel", o["r"], note="exception the model does not have")
+            continue
+        rows.append((c, o, t))
+    for fi, part in enumerate(chunks(rows, 300)):
+        jobs.append(("frame", part, "Cases_C18_frame_%d.v" % fi,
+                     "Definition cases : list (list vtx * list Z * list (who * Z) * res (list Z * list Z) * list Z\n"
+                     "  * (list (option (segment vtx)) * list (option (segment vtx)))\n"
+                     "  * (option (list (segment vtx)) * option (list (segment vtx)))) :=\n [%s].\n"
+                     % ";\n  ".join(x[2] for x in part),
+                     ["mismatches frame_case_ok cases"]))
+
     # ---- Coq evaluates the model (and the theorems' domain checks) on every case; files are compiled in parallel
     with concurrent.futures.ThreadPoolExecutor(max_workers=4) as ex:
         results = list(ex.map(lambda j: eval_cases(ck, j[2], j[3], j[4]), jobs))
@@ -559,6 +664,13 @@ def run(ck):
                             note="implementation agrees with the pinned-code model write_document_orig" if i not in res[1] else "")
             orig["document"] += len([i for i in res[0] if i not in res[1]])
             dom_bad += len(res[2])
+        elif kind == "frame":
+            for i in res[0]:
+                dis["frame"] += 1
+                o = part[i][1]
+                ck.disagree("run_two (two morphologies sharing inputs = independent values)", strip(part[i][0]),
+                            "each morphology as its own operations alone leave it; caller's arrays unchanged",
+                            {k: o.get(k) for k in ("r", "connA", "connB", "caller_conn", "frame")})
         else:
             for i in res[0]:
                 dis["morphology"] += 1
@@ -595,6 +707,11 @@ def run(ck):
         ck.count(1, nontrivial_key=["doc", strip(c)] if (c["cells"] or c["morphs"]) else None,
                  sample={"document": {"cells": len(c["cells"]), "morphology": len(c["morphs"])}, "implementation": o["r"]}
                  if c["kind"].startswith("stored") else None)
+    for c, o in zip(fr, out["frames"]):
+        check_frame(ck, c, o)
+        ck.count(1, nontrivial_key=["frame", strip(c)] if any(x[1] == "to_root" and x[2] != 0 for x in c["ops"]) else None,
+                 sample={"two_morphologies": strip(c), "implementation": {k: o.get(k) for k in ("connA", "connB", "caller_conn")}}
+                 if c["kind"] == "frame:stored" else None)
     for c, o in zip(ms, out["morphs"]):
         check_file(ck, {"morphology": strip(c)}, o, standalone=False)
         ck.count(1, nontrivial_key=["morph", strip(c)] if len(c["conn"]) >= 2 else None)
